@@ -1,8 +1,8 @@
 import Prism.Proofs.C01
-open Prism
-#print axioms C01_dec16_accurate
-#print axioms C01_dec8_accurate
-#print axioms C01_endpoints
-#print axioms C01_strict_mono16
-#print axioms C01_strict_mono8
-#print axioms C01_dec8_eq_dec16
+
+#print axioms Prism.C01_dec16_accurate
+#print axioms Prism.C01_dec8_accurate
+#print axioms Prism.C01_endpoints
+#print axioms Prism.C01_strict_mono16
+#print axioms Prism.C01_dec8_eq_dec16
+#print axioms Prism.C01_strict_mono8
